@@ -86,6 +86,9 @@ def run_copies(ctx, out):
         directed.append(dict(driver=drv, workers=1, bs=65536, upd="rec", size=5 * 65536 + 1000, fault="cfr-EIO@6/6", rule=("fail", 5, 0, "copy_file_range", 6)))
         # a sparse file on a file system without an extent map (FIEMAP: EOPNOTSUPP, as on tmpfs): it is announced, so it is copied
         directed.append(dict(driver=drv, workers=2, bs=65536, upd="chan", size=0, sparse=True, fault="fiemap-unsupported", rule=("fail", 95, 0, "ioctl", 0)))
+        # workers = 0 (`one per CPU`) on a process confined to ONE CPU: still at least one worker, or an error — never a copy()
+        # that announces everything, copies nothing and returns Ok
+        directed.append(dict(driver=drv, workers=0, bs=65536, upd="chan", size=100000, fault=None, rule=None, cpus=True))
         for i in range(3 if quick else 10):
             directed.append(dict(driver=drv, workers=2, bs=4096, upd=("recslow" if i % 2 == 0 else "rec"), size=3 * 65536 + i, fault=None, rule=None, hold=500))
     for k in range(ncase + len(directed)):
@@ -180,7 +183,8 @@ def run_copies(ctx, out):
                 os.path.join(d, "src"), os.path.join(d, "dst")]
         run = xcp.run_supervised(sup, argv, d, d, rules=rules, fd9=upath, tag="u",
                                  seed=rng.randrange(1 << 30), hold_permille=(spec.get("hold") if spec and spec.get("hold") else rng.choice([0, 100, 300])),
-                                 hold_maxms=(8 if spec and spec.get("hold") else 3), timeout_ms=60000)
+                                 hold_maxms=(8 if spec and spec.get("hold") else 3), timeout_ms=60000,
+                                 cpus=({sorted(os.sched_getaffinity(0))[0]} if spec and spec.get("cpus") else None))
         total = trees.total_file_size(tree) + extra_total
         rep = dict(kind="copy", tree=trees.describe(tree), driver=driver, workers=workers, bs=bs, updater=upd, fault=fault,
                    argv=argv, stdout=run.stdout[-600:], stderr=run.stderr[-300:], exit=run.exit)
